@@ -1,5 +1,6 @@
-// Package props registers one check per property.
-package props
+// Package env performs the process-wide initialisation the node's main() does and
+// links the libxcrypto stand-in (xmodel) into every check binary.
+package env
 
 import (
 	"sync"
@@ -10,12 +11,8 @@ import (
 	"github.com/lianxiangcloud/linkchain/metrics"
 	"github.com/lianxiangcloud/linkchain/types"
 
-	"verifh/core"
 	_ "verifh/xmodel"
 )
-
-// Registry maps a property id to its check.
-var Registry = map[string]func(*core.Ctx){}
 
 var initOnce sync.Once
 
